@@ -519,7 +519,7 @@ theorem addBytes_limit (s : P7540) (n : Nat) (b : Int) : (s.addBytes n b).limit 
   simp only [hup]; rfl
 
 /-- A successful visit of node `n` consumed from `n`'s queue and changed nothing else C12 can see. -/
-theorem visit_some {e e' : Env} {s s' : P7540} {n : Nat} {op : Bool} {f : Frame} {q' : WQ} (hl : 0 < s.limit)
+theorem visit_some {e e' : Env} {s : P7540} {n : Nat} {op : Bool} {f : Frame} {q' : WQ} (hl : 0 < s.limit)
     (hn : n < s.store.length) (hcons : (s.node n).q.consume e (s.visitLimit op) = (e', q', some f)) :
     ∃ s', visit e s n op = (e', s', some f) ∧ SameQ s s' n q' ∧ 0 < s'.limit := by
   have hsq := sameQ_modNode s hn (fun nn => { nn with q := q' }) (fun _ => ⟨rfl, rfl⟩)
@@ -600,5 +600,156 @@ theorem p7_pop {s : P7540} {opn ever : Nat → Bool} (e : Env) (hc : CoreInv s o
           · rw [h2] at hcons; cases hcons
             rw [h3]
             exact PopSpec.split hctl haq hpos h1
+
+/-! ### Limits are untouched by tree surgery -/
+
+theorem limit_modNode (s : P7540) (a : Nat) (f : Node → Node) : (s.modNode a f).limit = s.limit := rfl
+
+theorem limit_setParent {s s' : P7540} {n : Nat} {p : Option Nat} (h : s.setParent n p = some s') : s'.limit = s.limit := by
+  unfold setParent at h
+  split at h
+  · cases h
+  · split at h
+    · cases h; rfl
+    · have k1 : ∀ (t : P7540), (match (s.node n).parent with
+          | some p => t.modNode p fun pn => { pn with kids := pn.kids.erase n }
+          | none => t).limit = t.limit := by
+        intro t; split <;> rfl
+      cases p with
+      | none => simp only at h; cases h; rw [limit_modNode]; exact k1 s
+      | some pp => simp only at h; cases h; rw [limit_modNode, limit_modNode]; exact k1 s
+
+theorem limit_setParent! (s : P7540) (n : Nat) (p : Option Nat) : (s.setParent! n p).limit = s.limit := by
+  unfold setParent!
+  cases h : s.setParent n p with
+  | none => rfl
+  | some s' => exact limit_setParent h
+
+/-! ### `removeNode` -/
+
+/-- `s'` is `s` with the map entry of node `x`'s id removed (plus invisible changes). -/
+structure Removed (s s' : P7540) (x : Nat) : Prop where
+  len : s'.store.length = s.store.length
+  nd : ∀ i, Fields (s.node i) (s'.node i)
+  nodes : s'.nodes = s.nodes.filter fun p => p.1 != (s.node x).id
+  closedL : s'.closedL = s.closedL
+  idleL : s'.idleL = s.idleL
+  maxClosed : s'.maxClosed = s.maxClosed
+  maxIdle : s'.maxIdle = s.maxIdle
+  limit : s'.limit = s.limit
+
+theorem removeNode_kidsLoop (x : Nat) (fuel : Nat) : ∀ s : P7540,
+    Same s (removeNode.kidsLoop x fuel s) ∧ (removeNode.kidsLoop x fuel s).limit = s.limit := by
+  induction fuel with
+  | zero => intro s; unfold removeNode.kidsLoop; exact ⟨Same.refl s, rfl⟩
+  | succ k ih =>
+    intro s
+    unfold removeNode.kidsLoop
+    split
+    · exact ⟨Same.refl s, rfl⟩
+    · obtain ⟨h1, h2⟩ := ih (s.setParent! _ (s.node x).parent)
+      exact ⟨(same_setParent! _ _ _).trans h1, by rw [h2, limit_setParent!]⟩
+
+theorem removeNode_spec (s : P7540) (x : Nat) : Removed s (s.removeNode x) x := by
+  unfold removeNode
+  obtain ⟨h1, h2⟩ := removeNode_kidsLoop x (s.store.length + 1) s
+  have h3 := same_setParent! (removeNode.kidsLoop x (s.store.length + 1) s) x none
+  have h4 := h1.trans h3
+  refine ⟨h4.len, h4.nd, ?_, h4.closedL, h4.idleL, h4.maxClosed, h4.maxIdle, ?_⟩
+  · simp only [h4.nodes, (h4.nd x).2.2]
+  · simp only [limit_setParent!, h2]
+
+theorem lookup_filter (l : List (Nat × Nat)) (k a : Nat) :
+    (l.filter fun p => p.1 != k).lookup a = if a = k then none else l.lookup a := by
+  induction l with
+  | nil => simp
+  | cons p l ih =>
+    obtain ⟨pk, pv⟩ := p
+    by_cases hk : pk = k
+    · subst hk
+      simp only [List.filter, bne_self_eq_false, ih]
+      by_cases ha : a = pk
+      · simp [ha]
+      · have : (a == pk) = false := by simpa using ha
+        simp [List.lookup, this, ha]
+    · have hk' : (pk != k) = true := by simpa using hk
+      simp only [List.filter, hk', List.lookup]
+      by_cases ha : a = pk
+      · subst ha; simp [hk]
+      · have : (a == pk) = false := by simpa using ha
+        simp only [this, ih]
+
+theorem removed_lookup {s s' : P7540} {x : Nat} (h : Removed s s' x) (a : Nat) :
+    s'.lookup a = if a = (s.node x).id then none else s.lookup a := by
+  simp only [lookup, h.nodes, lookup_filter]
+
+/-- Removing a mapped node that is not open (closed or idle, hence with an empty queue). -/
+theorem core_removed {s s' : P7540} {opn ever : Nat → Bool} {x : Nat} (hc : CoreInv s opn ever) (h : Removed s s' x)
+    (hx0 : x ≠ 0) (hst : (s.node x).state ≠ 0) (hlk : s.lookup (s.node x).id = some x) :
+    CoreInv s' opn ever ∧ absP7 s' = absP7 s := by
+  have hidx : (s.node x).id ≠ 0 := fun hh => hx0 ((hc.zero_iff hlk).2 hh)
+  have hl := removed_lookup h
+  have hne : ∀ {a n}, s.lookup a = some n → (s.node n).state = 0 → a ≠ (s.node x).id := by
+    intro a n ha hs hh; subst hh; rw [hlk] at ha; cases ha; exact hst hs
+  constructor
+  · refine ⟨?_, by rw [h.len]; exact hc.rootlen, by rw [(h.nd 0).2.2]; exact hc.rootid,
+      by rw [(h.nd 0).2.1]; exact hc.rootst, ?_, ?_, ?_, ?_, by rw [h.limit]; exact hc.lim⟩
+    · rw [hl]; simp [Ne.symm hidx, hc.root]
+    · intro id n hn
+      rw [hl] at hn
+      split at hn
+      · cases hn
+      · rw [h.len, (h.nd n).2.2]; exact hc.map id n hn
+    · intro id; rw [hc.opn id]
+      constructor
+      · rintro ⟨h0, n, h1, h2⟩
+        refine ⟨h0, n, ?_, by rw [(h.nd n).2.1]; exact h2⟩
+        rw [hl]; simp [hne h1 h2, h1]
+      · rintro ⟨h0, n, h1, h2⟩
+        rw [hl] at h1
+        split at h1
+        · cases h1
+        · exact ⟨h0, n, h1, by rw [(h.nd n).2.1] at h2; exact h2⟩
+    · intro n hn hq
+      rw [(h.nd n).1] at hq
+      obtain ⟨id, h1, h2⟩ := hc.emp n hn hq
+      refine ⟨id, ?_, by rw [(h.nd n).2.1]; exact h2⟩
+      rw [hl]; simp [hne h1 h2, h1]
+    · intro id n h0 h1 h2
+      rw [hl] at h1
+      split at h1
+      · cases h1
+      · rw [(h.nd n).2.1] at h2; exact hc.ever id n h0 h1 h2
+  · refine Abs.ext' ?_ ?_
+    · simp [absP7, (h.nd 0).1]
+    · intro id
+      simp only [absP7, hl]
+      by_cases hid0 : id = 0
+      · simp [hid0]
+      · simp only [hid0, if_false]
+        by_cases hie : id = (s.node x).id
+        · simp only [hie, if_true, hlk]
+          cases hq : (s.node x).q.toList with
+          | nil => rfl
+          | cons f r =>
+            obtain ⟨_, _, h2⟩ := hc.emp x hx0 (by rw [hq]; simp)
+            exact absurd h2 hst
+        · simp only [hie, if_false]
+          cases hls : s.lookup id with
+          | none => rfl
+          | some n => simp only; rw [(h.nd n).1]
+
+/-- List members other than the removed node stay mapped. -/
+theorem list_removed {s s' : P7540} {opn ever : Nat → Bool} {x : Nat} (hc : CoreInv s opn ever) (h : Removed s s' x)
+    (hlk : s.lookup (s.node x).id = some x) (st : Nat) (l : List Nat) (hx : x ∉ l)
+    (hl : ∀ y ∈ l, (s.node y).state = st ∧ s.lookup (s.node y).id = some y) :
+    ∀ y ∈ l, (s'.node y).state = st ∧ s'.lookup (s'.node y).id = some y := by
+  intro y hy
+  obtain ⟨h1, h2⟩ := hl y hy
+  refine ⟨by rw [(h.nd y).2.1]; exact h1, ?_⟩
+  rw [(h.nd y).2.2, removed_lookup h]
+  have : (s.node y).id ≠ (s.node x).id := by
+    intro hh; rw [hh, hlk] at h2; cases h2; exact hx hy
+  simp [this, h2]
 
 end NetVerif.Proofs.WriteSched7540
